@@ -155,3 +155,113 @@ func isValueChan(t types.Type) bool {
 	nm := an.NamedOf(ch.Elem())
 	return nm != nil && nm.Obj().Name() == "Value" && nm.Obj().Pkg() != nil && strings.HasSuffix(nm.Obj().Pkg().Path(), "distsys/tla")
 }
+
+func init() {
+	register(&core.Rule{ID: "FRONTEND-ANSWER", Props: []string{"C14", "C09"}, Floor: 2,
+		Doc: "client front ends of the generated stores: an API call that waits for the archetype's answer in a select with an abandoning arm reports success (a nil error together with a value) only from the arm that received the answer of this call; the abandoning arm (timeout) reports an error. A value remembered from an earlier call and returned as a success after a timeout is an answer the store never gave for this request",
+		Run: runFrontendAnswer})
+}
+
+func runFrontendAnswer(c *core.Ctx) {
+	errT := types.Universe.Lookup("error").Type()
+	for _, pk := range c.Prog.Sorted() {
+		if !strings.HasPrefix(pk.Path, an.ModPrefix+"systems/") {
+			continue
+		}
+		info := pk.Info
+		for _, f := range pk.Files {
+			for _, d := range f.Decls {
+				fd, ok := d.(*ast.FuncDecl)
+				if !ok || fd.Body == nil || fd.Type.Results == nil {
+					continue
+				}
+				switch fd.Name.Name {
+				case "ReadValue", "WriteValue", "Index", "PreCommit", "Commit", "Abort", "Close":
+					continue // a resource's operation (a timed read has its own rules), not an API call of a front end
+				}
+				sig, _ := info.Defs[fd.Name].Type().(*types.Signature)
+				if sig == nil || sig.Results().Len() < 2 || !types.Identical(sig.Results().At(sig.Results().Len()-1).Type(), errT) {
+					continue
+				}
+				// the answering arms of abandoning selects in this function
+				var answering []*ast.CommClause
+				hasAbandon := false
+				ast.Inspect(fd.Body, func(m ast.Node) bool {
+					if _, isLit := m.(*ast.FuncLit); isLit {
+						return false
+					}
+					sel, ok := m.(*ast.SelectStmt)
+					if !ok {
+						return true
+					}
+					var recv []*ast.CommClause
+					abandons := false
+					for _, cl := range sel.Body.List {
+						cc := cl.(*ast.CommClause)
+						var rx ast.Expr
+						switch s := cc.Comm.(type) {
+						case *ast.ExprStmt:
+							rx = s.X
+						case *ast.AssignStmt:
+							if len(s.Rhs) == 1 {
+								rx = s.Rhs[0]
+							}
+						}
+						var fld *types.Var
+						if u, isU := an.Unparen(rx).(*ast.UnaryExpr); rx != nil && isU && u.Op == token.ARROW {
+							fld = an.SelectedField(info, u.X)
+						}
+						returns := false
+						for _, st := range cc.Body {
+							ast.Inspect(st, func(k ast.Node) bool {
+								if _, isRet := k.(*ast.ReturnStmt); isRet {
+									returns = true
+								}
+								return true
+							})
+						}
+						if fld != nil && isValueChan(fld.Type()) {
+							recv = append(recv, cc)
+						} else if returns {
+							abandons = true
+						}
+					}
+					if abandons && len(recv) > 0 {
+						hasAbandon = true
+						answering = append(answering, recv...)
+					}
+					return true
+				})
+				if !hasAbandon {
+					continue
+				}
+				name := an.ShortPkg(pk.Path) + "." + fd.Name.Name
+				if fd.Recv != nil && len(fd.Recv.List) == 1 {
+					name = an.ShortPkg(pk.Path) + "." + strings.TrimPrefix(types.ExprString(fd.Recv.List[0].Type), "*") + "." + fd.Name.Name
+				}
+				bad := ""
+				ast.Inspect(fd.Body, func(m ast.Node) bool {
+					if _, isLit := m.(*ast.FuncLit); isLit {
+						return false
+					}
+					r, ok := m.(*ast.ReturnStmt)
+					if !ok || len(r.Results) != sig.Results().Len() || !isNilIdent(info, r.Results[len(r.Results)-1]) {
+						return true
+					}
+					inside := false
+					for _, cc := range answering {
+						if r.Pos() >= cc.Pos() && r.End() <= cc.End() {
+							inside = true
+						}
+					}
+					if !inside {
+						bad = fmt.Sprintf("line %d returns %s as a success outside the arm that received the answer", c.Prog.Fset.Position(r.Pos()).Line, types.ExprString(r.Results[0]))
+					}
+					return true
+				})
+				c.Check(bad == "", name+":success-only-from-the-answer", fd.Pos(), "every success return lies in the arm that received this call's answer",
+					bad+": after the wait was abandoned the caller is told the store answered, with a value the store did not give for this request")
+			}
+		}
+	}
+}
